@@ -1,10 +1,12 @@
 CONSTANTS
   MaxLines = 1
-  Mode = "geno"
   SampleChoices <- Samples2
   Reduce = FALSE
   ChunkSizes = {2}
   BootMax = 2
+  Mode = "geno"
+  FlagSet = "small"
+  AllProjDepth = 1
 SPECIFICATION Spec
 CHECK_DEADLOCK FALSE
 INVARIANT TypeOK
